@@ -308,6 +308,8 @@ class Interp(Engine):
             return h
         if isinstance(v, SymSeq):
             raise Unsupported('iteration over a symbolic-length sequence outside the map-loop rule')
+        if v is None:
+            raise PyRaise('TypeError', note="'NoneType' object is not iterable")
         raise Unsupported(f"iter {v!r}")
 
     def ext(s, what, *a):
